@@ -450,6 +450,10 @@ func runC16(c *Ctx) {
 	c.Rule("C16.3", "only clean pages are evicted (C15.1)")
 	c.Rule("C16.4", "every page changed by a tree insert is marked dirty before the statement returns, and every store of cell bytes co-assigns the length the page image carries: otherwise the changed page may be evicted or reloaded stale")
 	c.Rule("C16.5", "the cache's representation (map, list, capacity) is touched only by LRUCache's own methods and by the flush's iteration: no other code can look a page up without refreshing its recency or register one behind the cache's back")
+	c.Rule("C16.6", "a page that is evicted and read again is the page that was cached: the page codecs are symmetric item by item (C12.1) and the i-th cell goes back into its slot (C12.11)")
+	checkCodecPair(c, "C16.6", "storage.(*btreeNode).encodeLeaf", "storage.(*btreeNode).decodeLeaf")
+	checkCodecPair(c, "C16.6", "storage.(*btreeNode).encodeInternal", "storage.(*btreeNode).decodeInternal")
+	ruleDecodeSlotAgreement(c, "C16.7")
 	f := c.NeedFunc("C16.1", "storage.(*fileStore).fetch")
 	if f != nil {
 		g := f.Graph()
